@@ -1,0 +1,107 @@
+//! Verification hooks. Only compiled with the `verif-hooks` cargo feature.
+//!
+//! Everything here is read-only: a re-export of the private `hpack` module and
+//! plain-data snapshots of connection / stream state copied under the
+//! library's own locks. No logic, no assertions.
+
+pub use crate::hpack::{BytesStr, Decoder, DecoderError, Encoder, Header, NeedMore};
+
+pub mod huffman {
+    pub use crate::hpack::huffman::{decode, encode};
+}
+
+#[derive(Debug, Clone, Default)]
+pub struct CountsSnap {
+    pub is_server: bool,
+    pub max_send_streams: usize,
+    pub num_send_streams: usize,
+    pub max_recv_streams: usize,
+    pub num_recv_streams: usize,
+    pub max_local_reset_streams: usize,
+    pub num_local_reset_streams: usize,
+    pub max_remote_reset_streams: usize,
+    pub num_remote_reset_streams: usize,
+    pub max_local_error_reset_streams: Option<usize>,
+    pub num_local_error_reset_streams: usize,
+    pub data_frame_budget_available: usize,
+    pub data_frame_budget_max: usize,
+    pub num_recv_empty_data_frames: usize,
+}
+
+#[derive(Debug, Clone, Default)]
+pub struct SendSnap {
+    pub init_window_sz: u32,
+    pub next_stream_id: Option<u32>,
+    pub max_stream_id: u32,
+    pub is_push_enabled: bool,
+    pub conn_window: i32,
+    pub conn_available: i32,
+    pub pending_send_empty: bool,
+    pub pending_capacity_empty: bool,
+    pub pending_open_empty: bool,
+    pub last_opened_id: u32,
+    pub in_flight_data_frame: &'static str,
+    pub max_buffer_size: usize,
+}
+
+#[derive(Debug, Clone, Default)]
+pub struct RecvSnap {
+    pub init_window_sz: u32,
+    pub conn_window: i32,
+    pub conn_available: i32,
+    pub in_flight_data: u32,
+    pub next_stream_id: Option<u32>,
+    pub last_processed_id: u32,
+    pub max_stream_id: u32,
+    pub pending_window_updates_empty: bool,
+    pub pending_accept_empty: bool,
+    pub pending_reset_expired_empty: bool,
+    pub refused: Option<u32>,
+    pub is_push_enabled: bool,
+    pub buffer_len: usize,
+}
+
+#[derive(Debug, Clone, Default)]
+pub struct StreamSnap {
+    pub id: u32,
+    pub state: String,
+    pub is_counted: bool,
+    pub ref_count: usize,
+    pub is_pending_send: bool,
+    pub is_pending_send_capacity: bool,
+    pub is_pending_open: bool,
+    pub is_pending_push: bool,
+    pub is_pending_accept: bool,
+    pub is_pending_window_update: bool,
+    pub is_pending_reset_expiration: bool,
+    pub send_window: i32,
+    pub send_available: i32,
+    pub recv_window: i32,
+    pub recv_available: i32,
+    pub in_flight_recv_data: u32,
+    pub requested_send_capacity: u32,
+    pub buffered_send_data: usize,
+    pub send_capacity_inc: bool,
+    pub pending_send_empty: bool,
+    pub pending_recv_empty: bool,
+    pub pending_push_promises_empty: bool,
+    pub has_send_task: bool,
+    pub has_recv_task: bool,
+    pub has_push_task: bool,
+    pub is_recv: bool,
+    pub content_length: String,
+}
+
+#[derive(Debug, Clone, Default)]
+pub struct Snapshot {
+    pub slab_len: usize,
+    pub ids_len: usize,
+    pub send_buffer_len: usize,
+    pub refs: usize,
+    pub counts: CountsSnap,
+    pub send: SendSnap,
+    pub recv: RecvSnap,
+    pub has_task: bool,
+    pub conn_error: Option<String>,
+    pub streams: Vec<StreamSnap>,
+}
